@@ -263,7 +263,7 @@ func (g *e3gen) stream() []byte {
 		}
 		// malformations
 		if i == badAt {
-			switch g.pick(7) {
+			switch g.pick(8) {
 			case 0: // id regression (message)
 				g.desc = append(g.desc, "msg-regress")
 				b = refAppendFrame(b, RFrame{Stream: sid, Msg: mid - 1, Kind: kind, Done: true, Data: data})
@@ -296,10 +296,20 @@ func (g *e3gen) stream() []byte {
 				b = refAppendFrame(b, RFrame{Stream: sid, Msg: mid, Kind: kind, Done: true, Data: big})
 				mid++
 				continue
-			case 6: // unfinished packet abandoned by a higher id (legal)
+			case 6: // unfinished packet abandoned by a higher id (legal); its control bit and kind die with it
 				g.desc = append(g.desc, "abandon")
-				b = refAppendFrame(b, RFrame{Stream: sid, Msg: mid, Kind: kind, Data: data})
+				nab := 1 + g.pick(2)
+				for a := 0; a < nab; a++ {
+					b = refAppendFrame(b, RFrame{Stream: sid, Msg: mid, Kind: kind ^ 3, Ctl: g.chance(0.5), Data: data})
+				}
 				mid++
+			case 7: // an unfinished packet raises the floor: the ids that follow it are lower
+				g.desc = append(g.desc, "regress-after-abandon")
+				if g.chance(0.5) {
+					b = refAppendFrame(b, RFrame{Stream: sid, Msg: mid + 2 + uint64(g.pick(3)), Kind: kind, Data: data})
+				} else {
+					b = refAppendFrame(b, RFrame{Stream: sid + 1 + uint64(g.pick(2)), Msg: 1, Kind: kind, Data: data})
+				}
 			}
 		}
 		// split into frames
